@@ -88,6 +88,7 @@ static void case_reset(void)
   srv_cookie_hook                              = NULL;
   srv_frame_hook                               = NULL;
   srv_built_hook                               = NULL;
+  srv_cookie_built_hook                        = NULL;
   sim_read_hook                                = NULL;
   hl_config_hook                               = NULL;
   ck_epoch                                     = 0;
